@@ -177,7 +177,11 @@ func vMakeStrDef(tag string, withFormat bool) vStrDef {
 	d.required = vBool(tag + ".required")
 	d.enumN = vChoice(tag+".enumN", 3)
 	for i := 0; i < d.enumN; i++ {
-		d.enum[i] = vChoice(tag+".enum", 3)
+		if vParam("enumsubsets") == 1 {
+			d.enum[i] = vChoice(tag+".enum", 3)
+		} else {
+			d.enum[i] = i // quick tier: the enums are {}, {a}, {a,b}
+		}
 	}
 	if d.enumN == 2 {
 		vAssume(d.enum[0] != d.enum[1])
